@@ -21,8 +21,8 @@ COMPONENTS = {"real": ["allocator", "mark", "weak reset", "finalizers", "sweep",
               "stub": ["collection schedule", "clock"]}
 BUDGET = {"quick": {"seconds": 60, "cases": 3000}, "thorough": {"seconds": 1200, "cases": 200000}}
 CONFIGS = {
-    "sim": {"variant": "sim", "imports": ["(srfi 18)", "(srfi 69)"], "timeout_ms": 120000},
-    "asan": {"variant": "asan", "imports": ["(srfi 18)", "(srfi 69)"], "timeout_ms": 300000},
+    "sim": {"variant": "sim", "imports": ["(srfi 18)", "(srfi 69)", "(chibi weak)"], "timeout_ms": 120000},
+    "asan": {"variant": "asan", "imports": ["(srfi 18)", "(srfi 69)", "(chibi weak)"], "timeout_ms": 300000},
 }
 GROWTH_C = 40
 
@@ -50,6 +50,13 @@ PRELUDE = r"""
     ((11) (make-thread (lambda () n)))
     ((12) (open-input-file "/repo/README.md"))
     ((13) (string->symbol (string-append "sym" (number->string n))))
+    ; a chain of ephemerons: the key of each later one is reachable only through the value of the one before; the later ones are
+    ; allocated first (lower addresses, scanned first by the collector's fixpoint)
+    ((15) (let loop ((i (modulo n 6)) (next-key (list 'last n)) (acc '()))
+            (if (< i 0)
+                (cons next-key acc)
+                (let* ((e (make-ephemeron next-key (vector 'val i n))) (k (list 'key i)))
+                  (loop (- i 1) k (cons (make-ephemeron k (list 'holds next-key e)) acc))))))
     (else (cons n n))))
 (define (churn kind size count stride start)
   (do ((i 0 (+ i 1)) (s start (modulo (+ s stride) NR))) ((= i count))
@@ -67,7 +74,7 @@ PRELUDE = r"""
 # (kind, typical sizes)
 KINDS = {
     0: [1, 5, 50, 500], 1: [0, 1, 7, 100, 5000, 40000, 150000], 2: [0, 3, 40, 3000, 100000], 3: [0, 1, 33, 4096, 300000],
-    4: [1, 40, 400], 5: [1], 6: [3, 20], 7: [2, 9], 8: [0, 5, 39], 9: [5, 49], 10: [3, 59], 11: [1], 12: [1], 13: [1, 100000], 14: [1],
+    4: [1, 40, 400], 5: [1], 6: [3, 20], 7: [2, 9], 8: [0, 5, 39], 9: [5, 49], 10: [3, 59], 11: [1], 12: [1], 13: [1, 100000], 14: [1], 15: [0, 2, 5],
 }
 
 
@@ -81,7 +88,7 @@ def gen_history(rng, tier, scale=1.0):
     byte_budget = int((150_000_000 if tier == "quick" else 600_000_000) * scale)
     est = 0
     # objects allocated per mk call, roughly
-    per_obj = {0: None, 6: 12, 8: 4, 9: 60, 10: 130, 12: 3}
+    per_obj = {0: None, 6: 12, 8: 4, 9: 60, 10: 130, 12: 3, 15: 40}
     for ph in range(phases):
         mix = rng.sample(sorted(KINDS.keys()), rng.range(1, 4))
         if rng.chance(1, 4):
@@ -108,6 +115,12 @@ def gen_history(rng, tier, scale=1.0):
                 count = min(count, 40)   # file ports: descriptors are a separate resource (C16)
             est += count * max(1, objs)
             ops.append("(churn %d %d %d %d %d)" % (kind, size, count, rng.choice([1, 3, 7]), rng.below(nroots)))
+            if kind == 15 and rng.chance(2, 3):
+                # one object larger than anything free: a new last heap segment appears behind the live ephemeron chains
+                ops.append("(vector-set! R (- NR 1) (make-bytevector %d 1))" % rng.choice([3000000, 9000000, 20000000]))
+                ops.append("(sim-gc)")
+                if rng.chance(1, 2):
+                    ops.append("(vector-set! R (- NR 1) #f)")
             if rng.chance(1, 4):
                 ops.append("(link %d %d)" % (rng.below(nroots), rng.below(nroots)))
             if rng.chance(1, 5):
@@ -159,7 +172,7 @@ def generate(rng, tier, index, seed):
         # any size an embedder may pass, not only multiples of the heap alignment unit
         base = rng.choice([0, 64 * 1024, 512 * 1024, 1024 * 1024, 8 * 1024 * 1024, 50000, 300000])
         knobs = {"fresh_ctx": True, "heap": base + (rng.choice([0, 0, 1, 8, 17, 24, 31]) if base else 0),
-                 "imports": ["(srfi 18)", "(srfi 69)"], "prepad": rng.choice([0, 4096, 1 << 20])}
+                 "imports": ["(srfi 18)", "(srfi 69)", "(chibi weak)"], "prepad": rng.choice([0, 4096, 1 << 20])}
     steps = [{"op": "eval", "src": PRELUDE}] + [{"op": "eval", "src": o} for o in ops]
     return {"prop": ID, "index": index, "seed": seed, "config": variant, "meta": {"family": "history-" + mode + ("-fresh" if knobs else "")},
             "steps": steps, "gc": gc, "knobs": knobs, "sched": {"default_q": 500, "tick_budget": 50000000}}
